@@ -181,7 +181,9 @@ class Scoping:
             self.instances.append((name, depth, value))
         if increments == 'auto':
             increments = [('list-item', 1)] if disp == 'li' else []
-        for pairs, combine in ((sets, lambda old, v: v), (increments, lambda old, v: old + v)):
+        # css-lists-3 4.5: "reset, then incremented, then set" (WeasyPrint sets first: finding
+        # counter-set-before-increment; the judges decline on elements doing both to one counter)
+        for pairs, combine in ((increments, lambda old, v: old + v), (sets, lambda old, v: v)):
             for name, value in pairs:
                 index = self.innermost(name)
                 if index is None:
@@ -198,6 +200,21 @@ class Scoping:
 
     def snapshot(self):
         return list(self.instances)
+
+
+def sets_and_increments(tree):
+    """Does some element (or pseudo-element) of the wire-form tree set and increment the same counter?"""
+    def ops_both(ops):
+        disp, _resets, sets, increments = ops
+        if increments == 'auto':
+            increments = [('list-item', 1)] if disp == 'li' else []
+        return bool({n for n, _ in sets} & {n for n, _ in increments})
+    ops, _ls, _mc, _anchor, before, after, kids = tree
+    if ops[0] == 'none':
+        return False
+    if ops_both(ops) or any(p is not None and ops_both(p[0]) for p in (before, after)):
+        return True
+    return any(sets_and_increments(k) for k in kids)
 
 
 def reference_texts(cs, tree, render_fn=render, marker_fn=marker):
